@@ -3,13 +3,13 @@ from ..core import Script
 from .. import coregen
 
 ID = "C04"
-SUITES = ["core", "init"]
+SUITES = ["core", "init", "rot"]
 LEAN_MODULES = ["VpnCloud.Proofs.C04", "VpnCloud.Proofs.C04Session"]
 THEOREMS = ["VpnCloud.Proofs.C04." + n for n in ("increment_val", "increment_wf", "encrypt_spec", "send_strictly_increasing", "seal_log_nodup", "stays_in_half", "halves_disjoint", "reconstruct_iff", "beyond_56_bits_rejected", "rotate_fresh")] + [
     "VpnCloud.Proofs.C04Session." + n for n in ("session_seal_log_nodup", "session_halves_disjoint", "open_keeps_send", "send_monotone_between_rotations", "counter_never_wraps")]
 BATCH = 100
 SEARCH_BUDGET_S = 300
-EXPECTED_CLASSES = ["seal:d", "deliver:ok", "deliver:err", "tick:ok"]
+EXPECTED_CLASSES = ["seal:d", "deliver:ok", "deliver:err", "tick:ok", "rcycle:ok"]
 TRUSTED_BASE = ["AEAD (ring) idealised: open succeeds iff key, nonce, ciphertext and tag are exactly those of a seal (tested on every mutated datagram by the correspondence)",
                 "random start values of send counters are inputs of the model (observed through a read-only hook)"]
 ASSUMPTIONS = ["AEAD idealisation I2 (authenticity) and L1 (open . seal = id); fewer than 2^95 - 2^48 seals per key"]
@@ -46,6 +46,11 @@ def gen(tier, rng):
     # "the two ends of a connection draw from disjoint halves": also when both handshake objects drew the same salt
     from .. import initgen
     yield initgen.equal_salt_script(rng.fork("salt"), "equal-salt")
+    # "each rotated-in key starts a new sequence at a random value": the rotated-in keys must then be separate keys.  Real RotationState objects over
+    # many cycles; the monitor of the rot suite numbers the installed key material by its bytes and fails when two exchanges share one key
+    from . import C07
+    for i in range(6 if tier == "thorough" else 2):
+        yield C07.random_schedule(rng.fork("rot%d" % i), 60 + 40 * i, "rot-keys-%d" % i)
 RULE = ("suite core: Nonce::increment on all byte-carry boundary patterns (k trailing ff bytes x boundary byte x fill) and random values; send counters "
         "forced to and around every byte-carry boundary, 2^48, 2^56 and 2^64 in both halves with seal + delivery; seal logs of both ends over random "
         "histories with rotations checked for pairwise distinct (key, nonce), strict increase and half membership; "
